@@ -305,6 +305,10 @@ macro_rules! remove_roundtrip {
 #[cfg(kani)]
 remove_roundtrip!(c16_remove_roundtrip_n0, 0, 0, 0);
 #[cfg(kani)]
+remove_roundtrip!(c16_remove_roundtrip_n1_l0, 1, 0, 0);
+#[cfg(kani)]
+remove_roundtrip!(c16_remove_roundtrip_n1_l1, 1, 1, 0);
+#[cfg(kani)]
 remove_roundtrip!(c16_remove_roundtrip_n1_l2, 1, 2, 0);
 #[cfg(kani)]
 remove_roundtrip!(c16_remove_roundtrip_n2_l03, 2, 0, 3);
